@@ -4,6 +4,7 @@
    union cases are classes with pairwise different classes and what a case dumps is rejected by every earlier case. *)
 From Coq Require Import List ZArith Bool String.
 From AV Require Import Model.Val Model.Load Model.Dump Proofs.LoadProofs Proofs.DumpProofs.
+From AV Require Model.Layout Model.CrownSem Proofs.CrownProofs.
 Import ListNotations.
 
 (* for every admissible type of the fragment and every value of that type, in every debug mode *)
@@ -30,3 +31,15 @@ Example C01_example :
   dump UM t v = Some (VDict [(VStr "k", VList [VNone; VTuple [VInt 5; VStr "a"]]); (VStr "j", VList [])]) /\
   load U All true t v = Ok v.
 Proof. repeat split; vm_compute; reflexivity. Qed.
+
+(* ... and for models under a name_mapping: whatever crown the layout produces (renames, nested paths, list nodes with
+   gaps, omit_default), loading what the model dumper wrote gives back every field and no extras (Proofs/CrownProofs.v,
+   shared with C03; DISABLE and FIRST mode, every extra policy) *)
+Theorem C01_model_roundtrip_through_any_layout :
+  forall (info : AV.Model.CrownSem.finfos) (pol : AV.Model.Layout.policy) (val : nat -> nat) (omit : nat -> bool) (default : nat -> nat),
+  (forall i, omit i = true -> AV.Model.CrownSem.fi_required (info i) = false /\ AV.Model.CrownSem.fi_default (info i) = default i) ->
+  forall md c d, md <> AV.Model.CrownSem.All -> AV.Proofs.CrownProofs.wf c -> AV.Model.Layout.is_leaf c = false ->
+  AV.Model.CrownSem.dump (fun i => Some (val i)) omit default c = Some d ->
+  AV.Model.CrownSem.load info pol md c d = AV.Model.CrownSem.Loaded (AV.Proofs.CrownProofs.expected val c) [].
+Proof. exact AV.Proofs.CrownProofs.load_dump_roundtrip. Qed.
+Print Assumptions C01_model_roundtrip_through_any_layout.
